@@ -20,7 +20,7 @@ func init() {
 		ID: "C09", Level: "exploration", Primary: "connections", EvalCount: "requests_tagged",
 		Rule: "16..256 concurrent clients run open / k requests of mixed operations / close / reconnect cycles against one long-lived server; every request carries the client-side connection tag in a DN; idle, " +
 			"malformed-frame and instantly-closed connections are interleaved (they consume IDs too), followed by replacements of the server's router while connections are open, by connections that are upgraded with StartTLS in the middle, by a long-lifetime phase (70 000+ short connections next to one long-lived one) and by episodes in which Accept fails temporarily (descriptor exhaustion) between two tagged connections. Oracle: tag -> ConnectionID is a function (stable per connection) and injective over the whole server lifetime " +
-			"(never reused, even after close), IDs > 0, and the ID passed to OnClose after a tagged connection ended is the one its handlers saw, exactly once. " +
+			"(never reused, even after close; also after another gldap server was started in the same process), IDs > 0 - also when a handler asks again after its client has hung up -, and the ID passed to OnClose after a tagged connection ended is the one its handlers saw, exactly once. " +
 			"distinct_nontrivial = distinct tagged connections that issued at least two requests and were closed and reported via OnClose",
 		Assume: []string{"a connection is identified client-side by the tag it puts into its requests"},
 		Phases: func(tier string, seed int64) []Phase {
